@@ -53,6 +53,14 @@ POOL = [
     ("export function f ( float4x4 m , float4x4 n ) -> float4x4 { float4x4 r = m * n ; r [ 1 ] [ 2 ] = 5.0 ; return r + m ; }\n", "f",
      [{"m": [[1.0, 0.0, 0.0, 2.0]] * 4, "n": [[0.5, 1.0, 1.5, 2.0]] * 4}]),
     ("uint gu ;\nexport function f ( uint a , int b ) -> int { gu = a + a ; int c = a + b ; return c ; }\n", "f", [{"a": 3, "b": -9}]),
+    # void functions: bare `return ;` on some paths, falling off the end on others
+    ("int g ;\nfunction note ( int a ) -> void { if ( a > 2 ) { g = a ; return ; } g = 0 - a ; return ; }\n"
+     "export function f ( int a ) -> int { note ( a ) ; return g ; }\n", "f", [{"a": 5}, {"a": 1}]),
+    ("float acc ;\nfunction add ( float v ) -> void { if ( v < 0.0 ) { return ; } acc = acc + v * 0.1 ; }\n"
+     "export function f ( float a , float b ) -> float { acc = 0.7 ; add ( a ) ; add ( b ) ; return acc + 3.14159 ; }\n", "f",
+     [{"a": 1.5, "b": -2.0}, {"a": 0.3, "b": 0.1}]),
+    ("float3x3 gm ;\nstruct T { float3x3 m ; float4x4 n ; }\nexport function f ( float3x3 a ) -> float3x3 { gm = a ; return gm * a ; }\n", "f",
+     [{"a": [[1.0, 2.0, 0.5], [0.25, 1.5, 3.0], [2.0, 0.1, 0.2]]}]),
     ("int [ 4 ] ga ;\nexport function f ( int i ) -> int { int [ 3 ] t ; t [ 1 ] = i ; ga [ 2 ] = t [ 1 ] * 2 ; return ga [ 2 ] + t [ 0 ] ; }\n",
      "f", [{"i": 6}]),
 ]
